@@ -30,7 +30,9 @@ fn same_output(a: &Outcome, b: &Outcome) -> bool {
 fn verif_grid() {
     let mut g = Grid::new("c06");
     let mut common: Vec<String> = Vec::new();
-    for s in PLAIN.iter().chain(PLAIN_DISTINCT.iter()).chain(AGGREGATE.iter()) { if *s != "SELECT input FROM t" { common.push(s.to_string()); } }
+    for s in PLAIN.iter().chain(PLAIN_DISTINCT.iter()).chain(AGGREGATE.iter()) { common.push(s.to_string()); }
+    // statements that name no column of the table
+    for s in ["SELECT 1 AS one FROM t", "SELECT input FROM t WHERE regexp_matches(input, 'a')", "SELECT DISTINCT input FROM t", "SELECT input FROM t LIMIT 2", "SELECT COUNT(*) AS n FROM t WHERE input != 'x'"] { common.push(s.to_string()); }
     common.push("SELECT k, v FROM t LIMIT 1".to_owned());
     common.push("SELECT DISTINCT k FROM t LIMIT 2".to_owned());
     let hosts = write_temp("hosts", &join_lines(&["h=alpha site=eu", "h=beta site=us", "h=alpha site=ap"]));
